@@ -451,11 +451,15 @@ func (vc *VC) appendCall(call ssa.CallInstruction) {
 					vc.disciplineAppend(call, el)
 					contents = Sto(contents, Add(base, IntLit(i)), el)
 				}
-				vc.setArr(en, es, Sto(vc.arrCur(en, es), a, contents))
 				nl := Add(sx("s_len", s), IntLit(at.Len()))
 				cp := vc.fresh("cap", SInt)
 				vc.fact(Ge(cp, nl))
-				vc.setVal(v, sx("mk_slice", a, sx("s_off", s), nl, cp))
+				// Go appends in place when the capacity suffices: the backing array of s is written and the
+				// result shares it; otherwise the elements are copied into a new array
+				inplace := And(Ne(sx("s_arr", s), "0"), Le(nl, sx("s_cap", s)))
+				Ecur := vc.arrCur(en, es)
+				vc.setArr(en, es, Ite(inplace, Sto(Ecur, sx("s_arr", s), contents), Sto(Ecur, a, contents)))
+				vc.setVal(v, Ite(inplace, sx("mk_slice", sx("s_arr", s), sx("s_off", s), nl, sx("s_cap", s)), sx("mk_slice", a, sx("s_off", s), nl, cp)))
 				return
 			}
 		}
@@ -473,12 +477,19 @@ func (vc *VC) appendCall(call ssa.CallInstruction) {
 	inner := "(Array Int " + vc.e.sortOf(st.Elem()) + ")"
 	contents := vc.fresh("contents", inner)
 	off := sx("s_off", s)
-	vc.setArr(en, es, Sto(E, a, contents))
 	nl := Add(sx("s_len", s), tl)
 	cp := vc.fresh("cap", SInt)
 	vc.fact(Ge(cp, nl))
+	// Go appends in place when the capacity suffices (the backing array of s is written from its end on, the
+	// result shares it); otherwise into a new array
+	inplace := And(Ne(sx("s_arr", s), "0"), Le(nl, sx("s_cap", s)))
+	ipc := vc.fresh("inplace", inner)
+	vc.gfact(fmt.Sprintf("(forall ((j Int)) (! (=> (or (< j (+ %s %s)) (>= j (+ %s %s))) (= (select %s j) (select (select %s %s) j))) :pattern ((select %s j))))",
+		off, sx("s_len", s), off, nl, ipc, E, sx("s_arr", s), ipc))
+	vc.setArr(en, es, Ite(inplace, Sto(E, sx("s_arr", s), ipc), Sto(E, a, contents)))
 	// append(nil, empty...) stays nil
-	vc.setVal(v, Ite(And(Eq(sx("s_arr", s), "0"), Eq(tl, "0")), "nil_slice", sx("mk_slice", a, off, nl, cp)))
+	vc.setVal(v, Ite(And(Eq(sx("s_arr", s), "0"), Eq(tl, "0")), "nil_slice",
+		Ite(inplace, sx("mk_slice", sx("s_arr", s), off, nl, sx("s_cap", s)), sx("mk_slice", a, off, nl, cp))))
 	// contents of the result, stated on elements (triggers: the elements of the operands)
 	E2 := vc.arrCur(en, es)
 	res := vc.val[v]
@@ -809,16 +820,28 @@ func (vc *VC) libCall(call ssa.CallInstruction, callee *ssa.Function, args []Ter
 	case "(*yaml.Node).Decode":
 		// decoding a YAML node into a struct with `yaml:"key"` tags: what ends up in a field is a function of
 		// the node and the key (spec functions yhas / ybool / ystr, available to contracts):
-		//   *T field:     non-nil  <=>  yhas(node, key)   (the key is present with a non-null value)
-		//   bool field:   ybool(node, key)
-		//   string field: ystr(node, key), which is "" when the key is absent
+		//   key present (yhas(node, key): with a non-null value):  *T field non-nil, bool field ybool(node, key),
+		//   string field ystr(node, key);   key absent: the field keeps the value it had before the call
+		//   (yaml.v3 does not zero the target).
 		// Fields of other types stay unconstrained. Known only when Decode reports no error.
-		vc.havoc(vc.callModSet(call))
-		r := vc.havocResults(call)
 		target := c.Args[len(c.Args)-1]
 		if mi, ok := target.(*ssa.MakeInterface); ok {
 			target = mi.X
 		}
+		// the fields before the call: yaml.v3 leaves a field alone when its key is absent
+		pre := map[int]Term{}
+		if pt, ok := target.Type().Underlying().(*types.Pointer); ok && isStruct(pt.Elem()) {
+			st := pt.Elem().Underlying().(*types.Struct)
+			for i := 0; i < st.NumFields(); i++ {
+				if isStruct(st.Field(i).Type()) {
+					continue
+				}
+				n, srt, _ := vc.e.fieldArr(pt.Elem(), i)
+				pre[i] = Sel(vc.arrCur(n, srt), vc.v(target))
+			}
+		}
+		vc.havoc(vc.callModSet(call))
+		r := vc.havocResults(call)
 		if pt, ok := target.Type().Underlying().(*types.Pointer); ok && isStruct(pt.Elem()) && len(r) == 1 {
 			st := pt.Elem().Underlying().(*types.Struct)
 			ref := vc.v(target)
@@ -838,16 +861,26 @@ func (vc *VC) libCall(call ssa.CallInstruction, callee *ssa.Function, args []Ter
 				n, srt, ft := vc.e.fieldArr(pt.Elem(), i)
 				fv := Sel(vc.arrCur(n, srt), ref)
 				k := vc.strLit(key)
+				has := sx(yhas, args[0], k)
+				old, hasOld := pre[i]
 				switch u := ft.Underlying().(type) {
 				case *types.Pointer:
-					vc.gfact(Imp(okT, Eq(Ne(fv, "0"), sx(yhas, args[0], k))))
+					vc.gfact(Imp(And(okT, has), Ne(fv, "0")))
+					if hasOld {
+						vc.gfact(Imp(And(okT, Not(has)), Eq(fv, old)))
+					}
 				case *types.Basic:
 					switch {
 					case u.Kind() == types.Bool:
-						vc.gfact(Imp(okT, Eq(fv, sx(ybool, args[0], k))))
+						vc.gfact(Imp(And(okT, has), Eq(fv, sx(ybool, args[0], k))))
+						if hasOld {
+							vc.gfact(Imp(And(okT, Not(has)), Eq(fv, old)))
+						}
 					case u.Kind() == types.String:
-						vc.gfact(Imp(okT, Eq(fv, sx(ystr, args[0], k))))
-						vc.gfact(Imp(Not(sx(yhas, args[0], k)), Eq(sx(ystr, args[0], k), "empty_str")))
+						vc.gfact(Imp(And(okT, has), Eq(fv, sx(ystr, args[0], k))))
+						if hasOld {
+							vc.gfact(Imp(And(okT, Not(has)), Eq(fv, old)))
+						}
 					}
 				}
 			}
